@@ -319,6 +319,7 @@ def check_C05(rep, tier, seed):
 def check_C09(rep, tier, seed):
     coq_part(rep, "C09")
     res = k3_part(rep, tier, seed)
+    k7_part(rep, "C09", tier, seed)
     direct = k3_select(res, ["result", "run", "seq_order", "clog_order", "seq_tie"], lambda m: bool(m.get("seq")))
     report_k3(rep, "C09", res, direct, [], [])
     if res["known"].get("C09_max_tie", 0) > 0:
@@ -331,6 +332,7 @@ def check_C09(rep, tier, seed):
 def check_C12(rep, tier, seed):
     coq_part(rep, "C12")
     res = k3_part(rep, tier, seed)
+    k7_part(rep, "C12", tier, seed)
     direct = k3_select(res, ["params", "is_sequential"])
     indirect = k3_select(res, ["kind"])
     report_k3(rep, "C12", res, direct, indirect, [])
